@@ -1,7 +1,7 @@
 (* Concrete two-worker interleavings that refute race freedom of the Context code (finding D7), on the
    configurations extracted from the real code (Model/CtxRaceWitness.v); each is replayed line by line on
    the real strax by the check. *)
-From SV Require Import Base.Prelude Model.CtxRace Model.CtxRaceWitness Proof.CtxRaceProof.
+From SV Require Import Base.Prelude Model.CtxRacePinned Model.CtxRacePinnedWitness Proof.CtxRacePinnedProof.
 
 Definition statuses (s : sys) : list status := map th_status (s_ths s).
 Definition all_done (s : sys) : bool := forallb th_done (s_ths s).
